@@ -9,6 +9,7 @@ LEVEL_TEXT = ("Coq theorems over a Gallina model of the TXT codec: round trip fo
               "differential correspondence run, and the theorem statements are executed as monitors on the "
               "implementation's outputs")
 TECHNIQUE = "machine-checked proof in Coq (round-trip by induction over the property list) + model/implementation correspondence"
+MODEL_GROUP = "codec"
 THEOREM_FILE = "Props/C16.v"
 LEVELS = "K2 (TXT codec through ServiceInfo::new / generate_txt / decode_txt_unique / TxtProperties::get)"
 RULE = ("generated property lists (structured, boundary lengths 254/255/256, refused forms, "
